@@ -620,8 +620,12 @@ class Component(
     @contextmanager
     def _with_metadata(self, item: MetadataItem) -> Generator[None, None, None]:
         self._metadata_stack.append(item)
-        yield
-        self._metadata_stack.pop()
+        try:
+            yield
+        finally:
+            # NOTE: Also when the render fails. Otherwise a component instance that is rendered more than once
+            # keeps the inputs (context, args, kwargs, slots) of all its failed renders.
+            self._metadata_stack.pop()
 
     @property
     def name(self) -> str:
